@@ -117,3 +117,48 @@ func VerifC18Predicate() {
 	nd.Assert(nd.Implies(nd.Not(anyMarkerBefore), !got), "file without any marker before the package clause treated as generated")
 	nd.Reach("done")
 }
+
+// VerifC18DocForms: the package comment carries "@generated" in every comment
+// form a Go file can use for it (line comment, no space, block comment,
+// directive-style lines such as //lint:..., //go:..., //nolint:..., tab
+// separated), followed by solver-chosen text; a second comment line of
+// arbitrary letters may precede it. The file must be recognised as
+// generated; with the marker misspelt it must not be.
+func VerifC18DocForms() {
+	forms := []string{"// ", "//", "/* ", "//lint:file-ignore U1000 ", "//go:generate echo ", "//nolint:all ", "//\t", "//export x "}
+	form := forms[nd.Choose("form", len(forms))]
+	tail := nd.Str("tail", 3)
+	for i := 0; i < len(tail); i++ {
+		nd.Assume(nd.Or(nd.And(tail[i] >= 'a', tail[i] <= 'z'), tail[i] == ' '))
+	}
+	marker := "@generated"
+	good := nd.Choose("spelling", 2) == 0
+	if !good {
+		marker = "@generate" // not the marker
+		nd.Assume(tail[0] != 'd')
+	}
+	text := form + marker + tail
+	if form == "/* " {
+		text += " */"
+	}
+	doc := &ast.CommentGroup{}
+	pos := 1
+	if nd.Choose("leadline", 2) == 1 {
+		lead := "// " + nd.Str("lead", 4)
+		for i := 3; i < len(lead); i++ {
+			nd.Assume(nd.And(lead[i] >= 'a', lead[i] <= 'z'))
+		}
+		doc.List = append(doc.List, &ast.Comment{Slash: token.Pos(pos), Text: lead})
+		pos += len(lead) + 1
+	}
+	doc.List = append(doc.List, &ast.Comment{Slash: token.Pos(pos), Text: text})
+	pos += len(text) + 1
+	f := &ast.File{Doc: doc, Package: token.Pos(pos), Name: &ast.Ident{Name: "p", NamePos: token.Pos(pos + 8)}, Comments: []*ast.CommentGroup{doc}}
+	got := checkGeneratedCode(f)
+	if good {
+		nd.Assert(got, "a file whose package comment contains @generated ("+form+"...) is not recognised as generated")
+	} else {
+		nd.Assert(!got, "a file without any marker is treated as generated")
+	}
+	nd.Reach("done")
+}
